@@ -738,6 +738,6 @@ func gen(seed uint64, tier string) {
 	r := vproto.NewRng(vproto.NewRng(seed).U64())
 	genHist(w, r, tier)
 	genBatches(w, r, tier)
-	genWKB(w, r, tier)
+	genWKB(w, r, tier, seed)
 	genJSON(w, r, tier)
 }
